@@ -1,5 +1,5 @@
 From Coq Require Import String Ascii List Bool Arith ZArith.
-Require Import PyStr PyInt Sexp Xml M_C09 M_C08 R_C08 Ns Table M_Parse.
+Require Import PyStr PyInt Sexp Xml M_C09 M_C08 R_C08 Ns Table M_Parse M_ParseText.
 Import ListNotations.
 
 Definition d_ref_elem (x : sexp) : option ref_elem :=
@@ -39,7 +39,11 @@ Definition e_parsed (p : parsed) : sexp :=
        e_list (fun t => let '(a, b, c) := normalize_ref lk t in Lst [e_onat a; e_onat b; e_onat c]) (p_refs p)].
 
 Definition run_parse (cmd : str) (args : list sexp) : option sexp :=
-  if str_eqb cmd (lit "parse_files") then
+  if str_eqb cmd (lit "parse_text_files") then
+    match args with
+    | [e; c; f] => obind (d_ext e) (fun e => obind (d_list d_str c) (fun c => omap (fun f => e_res e_parsed (parse_text_files e c f)) (d_list (d_pair d_str d_str) f)))
+    | _ => None end
+  else if str_eqb cmd (lit "parse_files") then
     match args with
     | [e; c; d] => obind (d_ext e) (fun e => obind (d_list d_str c) (fun c => omap (fun d => e_res e_parsed (parse_files e c d)) (d_list d_doc d)))
     | _ => None end
